@@ -61,6 +61,12 @@ def injections(rng, toks, defs, tier):
     out.append(("tuple-arity-mismatch", None, {"main.circom": base + "template BadU() { signal input i; signal output o; signal p; (o, p) <== (i, i, i); }\n"}, ["main.circom"]))
     out.append(("anonymous-component-in-function", None, {"main.circom": base + "function bada(a) { var x = T0()(a); return x; }\n"}, ["main.circom"]))
     out.append(("anonymous-component-wrong-arity", None, {"main.circom": base + "template BadA() { signal input i; signal output o; o <== T0(1, 2, 3, 4, 5, 6, 7)(i, i, i, i, i, i, i, i, i); }\n"}, ["main.circom"]))
+    # an anonymous component with one named argument too many, or one input named twice (seeded C02 m8: the arity check was kept for
+    # positional arguments only)
+    out.append(("anonymous-component-extra-named-argument", None, {"main.circom": base + "template Two() { signal input p; signal input q; signal output r; r <== p * q; }\n"
+                "template BadN() { signal input i; signal output o; o <== Two()(p <== i, q <== i, s <== i); }\n"}, ["main.circom"]))
+    out.append(("anonymous-component-input-named-twice", None, {"main.circom": base + "template Two2() { signal input p; signal input q; signal output r; r <== p * q; }\n"
+                "template BadM() { signal input i; signal output o; o <== Two2()(p <== i, p <== i, q <== i); }\n"}, ["main.circom"]))
     out.append(("anonymous-component-unknown-template", None, {"main.circom": base + "template BadB() { signal input i; signal output o; o <== NoSuchTemplate()(i); }\n"}, ["main.circom"]))
     # a main component that cannot be analysed: an anonymous component or a tuple, as the instantiation or inside its arguments (the
     # instantiation is analysed since 1121aa8; such a main component is skipped, which must not be silent)
@@ -71,6 +77,15 @@ def injections(rng, toks, defs, tier):
     out.append(("read-before-assignment", None, {"main.circom": base + "function badv(a) { var x; return a + x; }\n"}, ["main.circom"]))
     second = "pragma circom 2.0.0;\ntemplate Other() { signal input a; signal output b; b <== a; }\ncomponent main = Other();\n"
     out.append(("several-main-components", None, {"main.circom": base_plain, "second.circom": second}, ["main.circom", "second.circom"]))
+    # ... the second one in a file that is only included (seeded C02 m7: the error got labels, and a label in a file that is not named is
+    # filtered), also two includes down
+    inc_main = "pragma circom 2.0.0;\ntemplate Leftover() { signal input a; signal output b; b <== a; }\ncomponent main = Leftover();\n"
+    out.append(("several-main-components-one-included", None, {"main.circom": base_plain.replace(";\n", ";\ninclude \"lib_main.circom\";\n", 1), "lib_main.circom": inc_main},
+                ["main.circom"]))
+    out.append(("several-main-components-one-included-at-depth-2", None,
+                {"main.circom": base_plain.replace(";\n", ";\ninclude \"mid_main.circom\";\n", 1),
+                 "mid_main.circom": "pragma circom 2.0.0;\ninclude \"lib_main.circom\";\ntemplate MidM() { signal input a; signal output b; b <== a; }\n", "lib_main.circom": inc_main},
+                ["main.circom"]))
     # the failing file is itself named on the command line and is also included by another named file (either order): it stays a
     # user input, so its errors are displayed (seeded C02 m3)
     top = base_plain.replace(";\n", ";\ninclude \"lib_bad.circom\";\n", 1)
